@@ -44,6 +44,8 @@ pub enum TOp {
     /// only the thread whose number equals the CA's starts its key roll
     KeyrollInit,
     Republish,
+    /// re-issues every manifest and CRL (writes every CA's published-object set without the CA's command lock)
+    RepublishForce,
     RefreshAll,
     RepoSyncAll,
     Publish { slot: u8, content: u8 },
@@ -66,9 +68,10 @@ fn top() -> impl Strategy<Value = TOp> {
         3 => (0u8..3, vec(1u8..7, 1..3)).prop_map(|(ca, providers)| TOp::Aspa { ca, providers }),
         2 => (0u8..3).prop_map(|ca| TOp::Bgpsec { ca }),
         2 => Just(TOp::KeyrollInit),
-        1 => Just(TOp::Republish),
+        2 => Just(TOp::Republish),
+        3 => Just(TOp::RepublishForce),
         1 => Just(TOp::RefreshAll),
-        1 => Just(TOp::RepoSyncAll),
+        2 => Just(TOp::RepoSyncAll),
         4 => (0u8..6, 0u8..4).prop_map(|(slot, content)| TOp::Publish { slot, content }),
         2 => (0u8..6).prop_map(|slot| TOp::Withdraw { slot }),
         2 => Just(TOp::Read),
@@ -171,6 +174,7 @@ fn run_thread(w: &World, t: usize, ops: &[TOp], stop: &AtomicBool) -> Done {
                 }
             }
             TOp::Republish => w.republish(false).map(|_| ()),
+            TOp::RepublishForce => w.republish(true).map(|_| ()),
             TOp::RefreshAll => w.refresh_all(),
             TOp::RepoSyncAll => w.repo_sync_all(),
             TOp::Publish { slot, content: c } => {
